@@ -10,7 +10,7 @@ for d in sorted(glob.glob('/verif/seeded/*-*')):
         continue
     if sys.argv[1:] and os.path.basename(d) not in sys.argv[1:]:
         continue
-    pid = meta['property']; wt = f'/tmp/seed_{pid}'
+    pid = meta['property']; wt = f"/tmp/seed{'2' if '-r2-' in d else ''}_{pid}"
     if not os.path.isdir(wt):
         print(d, 'worktree gone'); continue
     def sh(cmd): return subprocess.run(cmd, shell=True, capture_output=True, text=True, cwd=wt, env=env)
